@@ -144,4 +144,18 @@ VARIANTS = [
  dict(name='benign-rename-predicate', expect='silent', edits=[
       (H, 'func isCriticalFailure(', 'func failsVerification('),
       ], file=V, find='isCriticalFailure(', replace='failsVerification(', all=True),
+ dict(name='F15-reintroduced', file=V, expect='flagged(critical-attr-accounting/non-string-key)',
+      find='\t\tif _, ok := attr.Key.(string); !ok && attr.Critical {\n\t\t\treturn fmt.Errorf("extended critical attribute %v is not supported: only attributes with a string key can be processed by the verification plugin %q", attr.Key, verificationPluginName)\n\t\t}\n', replace='\t\t_ = attr\n'),
+ dict(name='non-string-check-ignores-critical-flag-inverted', file=V, expect='flagged(critical-attr-accounting/non-string-key)',
+      find='\t\tif _, ok := attr.Key.(string); !ok && attr.Critical {', replace='\t\tif _, ok := attr.Key.(string); !ok && !attr.Critical {'),
+ dict(name='header-filter-by-prefix', file=H, expect='flagged(critical-attr-accounting/enumerator-exact)',
+      edits=[(H, '\t"github.com/notaryproject/notation-go/internal/slices"\n', '')],
+      find='\t\tif ok && !slices.Contains(VerificationPluginHeaders, attrStrKey) {', replace='\t\tif ok && !strings.HasPrefix(attrStrKey, HeaderVerificationPlugin) {'),
+ dict(name='header-filter-case-insensitive', file=H, expect='flagged(critical-attr-accounting/enumerator-exact)',
+      find='\t\tif ok && !slices.Contains(VerificationPluginHeaders, attrStrKey) {', replace='\t\tif ok && !strings.EqualFold(attrStrKey, HeaderVerificationPlugin) && !slices.Contains(VerificationPluginHeaders, attrStrKey) {'),
+ dict(name='header-list-extended', file=H, expect='flagged(critical-attr-accounting/enumerator-exact)',
+      find='\tHeaderVerificationPluginMinVersion,\n}', replace='\tHeaderVerificationPluginMinVersion,\n\t"io.cncf.notary.verificationPluginConfig",\n}'),
+ dict(name='benign-header-filter-by-equality', file=H, expect='silent',
+      edits=[(H, '\t"github.com/notaryproject/notation-go/internal/slices"\n', '')],
+      find='\t\tif ok && !slices.Contains(VerificationPluginHeaders, attrStrKey) {', replace='\t\tif ok && attrStrKey != HeaderVerificationPlugin && attrStrKey != HeaderVerificationPluginMinVersion {'),
 ]
